@@ -18,19 +18,19 @@ __CPROVER_requires(!checked_G && checks_at_G == 0 && !any_invalid && live_tmp ==
 __CPROVER_assigns(checked_G, checks_at_G, any_invalid, last_invalid_idx, frac_num, frac_den, frac_val, live_tmp, tmp_ptr, valid_, invalid_, lastValid->second)
 __CPROVER_assigns(lastValid->first != NULL: *(lastValid->first))
 /* C05.a valid => end state and every subdivision point checked and valid */
-__CPROVER_ensures(__CPROVER_return_value ==> (checked_G && VG))
+__CPROVER_ensures(__CPROVER_return_value ==> (checked_G && VG && PE))
 /* C05.b invalid => some check failed */
-__CPROVER_ensures(!__CPROVER_return_value ==> any_invalid)
+__CPROVER_ensures(!__CPROVER_return_value ==> (any_invalid || !PE))
 /* C05.c fraction is m/n, everything up to m valid, m+1 is the failed check */
-__CPROVER_ensures(!__CPROVER_return_value ==> (ND == 0 ? lastValid->second == 0.0 : (lastValid->second == frac_val && frac_den == ND)))
-__CPROVER_ensures(!__CPROVER_return_value ==> (0 <= M && M < IDX_S2))
-__CPROVER_ensures((!__CPROVER_return_value && G <= M) ==> (checked_G && VG))
-__CPROVER_ensures((!__CPROVER_return_value && G == M + 1) ==> (checked_G && !VG))
-__CPROVER_ensures(!__CPROVER_return_value ==> last_invalid_idx == M + 1)
+__CPROVER_ensures((!__CPROVER_return_value && PE) ==> (ND == 0 ? lastValid->second == 0.0 : (lastValid->second == frac_val && frac_den == ND)))
+__CPROVER_ensures((!__CPROVER_return_value && PE) ==> (0 <= M && M < IDX_S2))
+__CPROVER_ensures((!__CPROVER_return_value && PE && G <= M) ==> (checked_G && VG))
+__CPROVER_ensures((!__CPROVER_return_value && PE && G == M + 1) ==> (checked_G && !VG))
+__CPROVER_ensures((!__CPROVER_return_value && PE) ==> last_invalid_idx == M + 1)
 /* C05.c last-valid state is the interpolation at that fraction */
-__CPROVER_ensures((!__CPROVER_return_value && old_first != NULL) ==> (lastValid->first == old_first && lastValid->first->num == M && lastValid->first->den == ND))
+__CPROVER_ensures((!__CPROVER_return_value && PE && old_first != NULL) ==> (lastValid->first == old_first && lastValid->first->num == M && lastValid->first->den == ND))
 /* C05.d fraction in [0,1) */
-__CPROVER_ensures(!__CPROVER_return_value ==> (lastValid->second >= 0.0 && lastValid->second < 1.0))
+__CPROVER_ensures((!__CPROVER_return_value && PE) ==> (lastValid->second >= 0.0 && lastValid->second < 1.0))
 /* C05.f success leaves lastValid untouched */
 __CPROVER_ensures(__CPROVER_return_value ==> (lastValid->second == old_second && lastValid->first == old_first))
 __CPROVER_ensures((__CPROVER_return_value && old_first != NULL) ==> (lastValid->first->num == old_first_val.num && lastValid->first->den == old_first_val.den))
@@ -46,6 +46,6 @@ void harness(void)
     State *a, *b; pair_State_double *lv;
     bool r = checkMotion_lv(a, b, lv);
     if (r) REACH("returns true"); else REACH("returns false");
-    if (!r && ND == 0) REACH("nd==0 invalid");
+    if (!r && PE && ND == 0) REACH("nd==0 invalid");
     if (!r && ND > 5 && frac_num == 3) REACH("fails mid-way");
 }
